@@ -159,6 +159,16 @@ class Family(object):
                              for j, n in enumerate(lnames)}) for k in range(3)]
         calls.append(('L1.pointwise_dataset',
                       lambda k: np.asarray(chi.compute_pointwise_loglikelihood(self.L1, dsets[k], param_map=dict(pmap)).values)))
+        # a posterior predictive model over a dataset with two individuals: the argument selects the individual (and
+        # the seed); nothing derived from one individual's samples may be served for the other
+        pnames = [str(n) for n in self.PM.get_parameter_names()]
+        po_vals = np.array([[[xs[0][j], xs[2][j]], [xs[1][j], xs[1][j] * 1.1]] for j in range(len(pnames))])
+        po_ds = xr.Dataset({n: xr.DataArray(po_vals[j][np.newaxis], dims=['chain', 'draw', 'individual'],
+                                            coords={'chain': [0], 'draw': [0, 1], 'individual': ['a', 'b']})
+                            for j, n in enumerate(pnames)})
+        self.PO = chi.PosteriorPredictiveModel(self.PM, po_ds)
+        calls.append(('PO.sample', lambda k: self.PO.sample(tt, n_samples=3, individual=['a', 'b', 'a'][k],
+                                                            seed=s['seed'] + 7 * k)[['ID', 'Time', 'Value']]))
         self.derived_independent = {'L1.call', 'L1.pointwise', 'L1.S1', 'L2.call', 'L2.S1', 'P1.call', 'P1.S1', 'P1.initial',
                                     'PM.sample', 'L1.pointwise_dataset'}
         if h['n_ids'] >= 2:
@@ -254,6 +264,11 @@ class Family(object):
         sim = [self._keep('sim', np.array([[[1.1 + 0.1 * k, 2.1]], [[0.8, 1.7 + 0.1 * k]], [[1.4, 2.6]]])) for k in range(3)]
         calls += [('F.loglik', lambda k: self.F.compute_log_likelihood(sim[k])),
                   ('F.sens', lambda k: self.F.compute_sensitivities(sim[k]))]
+        for tag, cls in (('FG', chi.GaussianFilter), ('FL', chi.LogNormalFilter), ('FLK', chi.LogNormalKDEFilter)):
+            f = cls(self._keep('filter obs ' + tag, filt_obs.copy()))
+            setattr(self, tag, f)
+            calls += [(tag + '.loglik', lambda k, f=f: f.compute_log_likelihood(sim[k])),
+                      (tag + '.sens', lambda k, f=f: f.compute_sensitivities(sim[k]))]
         # filter posterior over the user's mechanistic model (simulated individuals are parameters of the posterior)
         n_out = ll0['n_out']
         f_obs = self._keep('filter posterior obs', np.array(
@@ -371,9 +386,21 @@ def _same(case, got, want, what):
         case.close(a, b, rtol=1e-12, atol=0, what=what)
 
 
+def _process_state():
+    """Process-wide settings an evaluation has no business changing (copies)."""
+    import warnings
+    import os
+    # (blanket filters as installed by warnings.simplefilter; message- or module-specific ones may legitimately be
+    # added by a library that is imported lazily during the first evaluation)
+    return dict(warnings_filters=[tuple(str(x) for x in f) for f in warnings.filters if f[1] is None and f[3] is None],
+                numpy_errstate=dict(np.geterr()),
+                numpy_printoptions={k: str(v) for k, v in np.get_printoptions().items()}, cwd=os.getcwd())
+
+
 def check(case):
     import pints
     s = case.spec
+    state0 = _process_state()
     with case.clause('construct'):
         fam = Family(s)
         twin = Family(s)          # pristine twin: its user models are never mutated
@@ -466,6 +493,25 @@ def check(case):
             case.equal([str(n) for n in obj.get_parameter_names()], before,
                        'parameter names of %s after the program (evaluations only%s)' % (
                            lab, ', user models mutated' if mutated else ''))
+
+    # one posterior predictive model asked for two individuals in turn: the order of the requests does not matter (the
+    # pristine twin is asked in the opposite order)
+    if hasattr(fam, 'PO') and not mutated:
+        with case.clause('sibling_individuals'):
+            f_call, t_call = dict(fam.calls)['PO.sample'], dict(twin.calls)['PO.sample']
+            got = [_norm(f_call(k)) for k in (0, 1, 2)]
+            want = dict((k, _norm(t_call(k))) for k in (1, 0, 2))       # the twin is asked for 'b' first
+            for k in (0, 1, 2):
+                _same(case, got[k], want[k], 'posterior predictive samples for individual %r (requested in the order a, b, a '
+                      'vs b, a, a)' % ['a', 'b', 'a'][k])
+
+    # evaluations do not reconfigure the process (warning filters, numpy error state, print options, directory)
+    with case.clause('process_state_unchanged'):
+        state1 = _process_state()
+        for key in sorted(state0):
+            case.true(state1[key] == state0[key], 'the process-wide %s changed during the evaluations: %r -> %r' % (
+                key.replace('_', ' '), state0[key] if key != 'warnings_filters' else state0[key][:3],
+                state1[key] if key != 'warnings_filters' else state1[key][:3]), kind='global_state')
 
     with case.clause('inputs_unchanged'):
         for label, obj, cp in fam.inputs:
